@@ -37,6 +37,8 @@ structure R where
   rdy : List (Nat × Nat) := []          -- (handle, operation) in the ready queue
   cur : HashMap Nat (Nat × Nat) := {}   -- actor ↦ (operation, handle) taken from the ready queue
   tested : HashMap Nat Nat := {}        -- actor ↦ handle its last `poll_request` found complete (not yet consumed)
+  callId : HashMap Nat Nat := {}        -- actor ↦ harness id of the owned argument its MPI callable has just been given
+  idOp : HashMap Nat Nat := {}          -- harness id of an owned argument ↦ operation
 
 def eraseFirst (l : List (Nat × Nat)) (p : Nat × Nat) : List (Nat × Nat) := l.erase p
 
@@ -50,8 +52,17 @@ def toEvs (r : R) (l : Line) (nextCb : Option Nat) : Option (R × List Ev) :=
     let x := r.nextOp
     let mode := b / 4294967296
     let st := b % 4294967296
-    some ({ r with opOf := r.opOf.insert l.obj x, handleOf := r.handleOf.insert x a, nextOp := x + 1 },
+    -- an owned argument (harness, `x.call`) belongs to the operation whose MPI call this thread has just made
+    let idOp := match r.callId.get? t with
+      | some id => r.idOp.insert id x
+      | none => r.idOp
+    some ({ r with opOf := r.opOf.insert l.obj x, handleOf := r.handleOf.insert x a, nextOp := x + 1,
+                   callId := r.callId.erase t, idOp := idOp },
           [.post t x ((mode / 8) % 8) (st == 0)])
+  | "x.call" => some ({ r with callId := r.callId.insert t a }, [])
+  | "x.rel" =>
+    -- the destructor of an argument the adaptor owned (decay-copied into `op_state.ts`) has run
+    (r.idOp.get? a).map fun x => (r, [.rel t x])
   | "mpi.tested" => some ({ r with tested := r.tested.insert t a }, [])
   | "mpi.eager" =>
     -- the model's `eager` / `ydone` mean "MPI_Test reported the request complete": only emitted when
@@ -167,7 +178,7 @@ def accept (ls : Array Line) : Except (Nat × String) (St × Nat) := Id.run do
   let mut n := 0
   for i in [0:ls.size] do
     let l := ls[i]!
-    if l.site.startsWith "x." then continue
+    if l.site.startsWith "x." && l.site != "x.call" && l.site != "x.rel" then continue
     match toEvs r l (ncb[i]!) with
     | none => return .error (i, "unresolved: " ++ l.raw)
     | some (r', evs) =>
@@ -196,6 +207,10 @@ structure Mon where
   cbSeen : HashMap Nat Bool := {}   -- address ↦ callback body entered in this life
   postH : HashMap Nat Nat := {}     -- address ↦ handle of the current life
   lastTest : HashMap Nat Nat := {}  -- thread ↦ handle last reported complete by poll_request
+  callId : HashMap Nat Nat := {}    -- thread ↦ owned-argument id handed to the MPI callable it is running
+  addrId : HashMap Nat Nat := {}    -- address ↦ owned-argument id of the current life
+  over : HashMap Nat Bool := {}     -- owned-argument id ↦ its operation's request was reported complete / the operation was signalled
+  rels : HashMap Nat Nat := {}      -- owned-argument id ↦ releases
   fails : List String := []
 
 def Mon.fail (m : Mon) (s : String) : Mon := if m.fails.length < 8 then { m with fails := m.fails ++ [s] } else m
@@ -205,15 +220,33 @@ def monStep (m : Mon) (l : Line) : Mon :=
   match l.site with
   | "mpi.post" =>
     let m := if m.life.get? l.obj == some 1 then m.fail s!"operation posted again before it completed [{l.raw}]" else m
+    let m := match m.callId.get? l.tid with
+      | some id => { m with addrId := m.addrId.insert l.obj id, callId := m.callId.erase l.tid }
+      | none => { m with addrId := m.addrId.erase l.obj }
     { m with life := m.life.insert l.obj 1, cbSeen := m.cbSeen.insert l.obj false, postH := m.postH.insert l.obj a }
+  | "x.call" => { m with callId := m.callId.insert l.tid a }
+  | "x.rel" =>
+    let m := { m with rels := m.rels.insert a (m.rels.getD a 0 + 1) }
+    let m := if m.rels.getD a 0 > 1 then m.fail s!"an owned argument was released twice [{l.raw}]" else m
+    if m.over.getD a false then m
+    else m.fail s!"arguments released before MPI reported the request complete: owned argument {a} [{l.raw}]"
   | "mpi.tested" => { m with lastTest := m.lastTest.insert l.tid a }
   | "mpi.eager" =>
+    let m := match m.addrId.get? l.obj with
+      | some id => { m with over := m.over.insert id true }
+      | none => m
     if m.lastTest.get? l.tid == m.postH.get? l.obj then { m with lastTest := m.lastTest.erase l.tid }
     else m.fail s!"completion before MPI reported the request complete (early poll) [{l.raw}]"
   | "mpi.ydone" =>
+    let m := match m.addrId.get? l.obj with
+      | some id => { m with over := m.over.insert id true }
+      | none => m
     if m.lastTest.get? l.tid == m.postH.get? l.obj then { m with lastTest := m.lastTest.erase l.tid }
     else m.fail s!"completion before MPI reported the request complete (yield_while) [{l.raw}]"
   | "mpi.sig" =>
+    let m := match m.addrId.get? l.obj with
+      | some id => { m with over := m.over.insert id true }
+      | none => m
     let m := { m with sigs := m.sigs + 1 }
     if a == 3 then { m with life := m.life.insert l.obj 2 }
     else
@@ -222,7 +255,11 @@ def monStep (m : Mon) (l : Line) : Mon :=
       let m := if (a == 4 || a == 5 || a == 6 || a == 7) && m.cbSeen.getD l.obj false == false then
           m.fail s!"completion signalled before the request's callback ran [{l.raw}]" else m
       { m with life := m.life.insert l.obj 2 }
-  | "mpi.cb" => { m with cbSeen := m.cbSeen.insert l.obj true }
+  | "mpi.cb" =>
+    let m := match m.addrId.get? l.obj with
+      | some id => { m with over := m.over.insert id true }
+      | none => m
+    { m with cbSeen := m.cbSeen.insert l.obj true }
   | "x.cont" => { m with conts := m.conts + 1 }
   | "mpi.gacinc" => { m with gacInc := m.gacInc + 1 }
   | "mpi.gacdec" => { m with gacDec := m.gacDec + 1 }
